@@ -1198,6 +1198,41 @@ def aborted_case(ctx, drv, cfg, b):
                 "history_after_abort": log[1]["impl"]["iter_losses"], "C_losses": C["losses"]}, limit=6)
 
 
+def empty_train_case(ctx, drv, cfg, b):
+    """random split whose validation set takes EVERY pattern (round(n * val_ratio) = n, val_ratio < 1): the training set is
+    empty, the batch loop yields nothing, len(batcher) = 0 and `total_loss / len(batcher)` raises ZeroDivisionError in the first
+    iteration.  Reported = yielded (0 = 0) holds, so there is no property verdict; what the call leaves behind is compared with
+    the model's `reconstructF` (raised, nothing recorded, split draw + one shuffle consumed)."""
+    import numpy as np
+    from props import ptycho_tiny as pt
+    N = cfg["scan"][0] * cfg["scan"][1]
+    case = {"stream": "empty-train", "cfg": cfg, "b": b}
+    p = build(cfg, canonical=True)
+    ins = Instrument(p)
+    raised = None
+    with pt.no_gc(), ins:
+        try:
+            p.reconstruct(num_iters=2, reset=True, batch_size=b, loss_type=cfg["loss_type"], constraints={}, optimizer_params=pt.sgd_params())
+        except Exception as e:  # noqa
+            raised = type(e).__name__
+    ctx.count()
+    ctx.mark(("empty-train", N, b, cfg["val_ratio"]))
+    ctx.dist[f"empty-train:{raised}"] += 1
+    from qv.driver import f2b
+    twin = np.random.default_rng(cfg["rng_seed"])
+    draws = [[int(x) for x in twin.permutation(np.arange(N))], [int(x) for x in twin.permutation(np.asarray([], dtype=int))]]
+    impl = {"schedule": [[]] if not ins.rec else [[e["indices"] for e in ins.rec]], "iter_losses": [float(x) for x in p.iter_losses], "val_losses": [float(x) for x in p.val_iter_losses],
+            "raised": raised is not None, "gen": p.rng.bit_generator.state["state"] == twin.bit_generator.state["state"]}
+    m = drv.ask({"op": "fhistory", "n": N, "seed": 1, "runs": [{"reset": True, "route": "arg", "iters": 2, "b": b, "ratio": f2b(cfg["val_ratio"]), "mode": cfg["val_mode"], "fault": None,
+                                                               "draws": draws, "train_losses": [], "val": []}]})
+    if "ok" not in m:
+        raise HarnessError(f"driver error {m}")
+    mo = m["ok"][0]
+    mv = {"schedule": mo["schedule"], "iter_losses": mo["iter_losses"], "val_losses": mo["val_losses"], "raised": mo["raised"], "gen": mo["draws_used"] == 2}
+    if mv != impl:
+        ctx.disagree("reconstruct-empty-training-set", case, mv, dict(impl, exception=raised), note="reconstruct() with an empty training set (model: ZeroDivisionError in iteration 0, nothing recorded)")
+
+
 def gen_aborted_cfg(rng, i):
     """(cfg, b): the interrupted call hits training batch j of iteration it (mostly j >= 1: some batches of the epoch are already done),
     a validation batch, or the code after the iteration was recorded"""
@@ -1226,6 +1261,171 @@ def gen_aborted_cfg(rng, i):
     c["abort"] = {"frozen": frozen, "first_reset": i % 3 != 0, "reset": i % 4 == 3, "b": b_ab, "iters": it_ab, "fault": fault,
                   "exc": ["RuntimeError", "KeyboardInterrupt", "MemoryError", "FloatingPointError"][i % 4], "route": ["arg", "method", "classmethod"][i % 3]}
     return c, b
+
+
+# ---------------------------------------------------------------------------------------
+# stream (g): the seed forms of RNGMixin; (h): sequences of configuration calls; (i): pinned signatures
+
+def jsonable_value(v):
+    """Python bools are ints for every validator involved (True -> 1)"""
+    return int(v) if isinstance(v, bool) else v
+
+
+def run_rngset_stream(ctx, drv):
+    """RNGMixin.rng = <every form of seed> then _reset_rng(), on the mixin itself: accepted / rejected, the NumPy generator
+    (compared through its state with a twin built from the modelled (seed, position)), the torch seed — against the model's
+    `rngSet` / `resetRngFull`.  Seeds: 0, 1, True, small, 2**32-1, 2**32, 2**32+42, >= 2**64, 128 bit, negative."""
+    import numpy as np
+    import torch
+    from quantem.core.utils.rng import RNGMixin
+    rng = ctx.rng.fork(9)
+    seeds = [0, 1, True, 7, 2 ** 32 - 1, 2 ** 32, 2 ** 32 + 42, 2 ** 64 + 3, (1 << 127) | 12345, rng.below(1 << 30), rng.below(1 << 62)]
+    cases = []
+    for sd in seeds:
+        cases.append({"form": "int", "seed": sd})
+        cases.append({"form": "np_generator", "seed": int(sd), "consumed": 0})
+        cases.append({"form": "np_generator", "seed": int(sd), "consumed": rng.randint(1, 3)})
+        if int(sd) < 2 ** 64:
+            cases.append({"form": "torch_generator", "seed": int(sd)})
+    cases += [{"form": "int", "seed": -3}, {"form": "int", "seed": -1}, {"form": "float", "seed": 1.5}, {"form": "float", "seed": 2.0}, {"form": "other", "seed": "abc"},
+              {"form": "other", "seed": [1, 2]}, {"form": "none", "seed": None}]
+
+    def twin_state(seed, pos):
+        g = np.random.default_rng(seed)
+        for _ in range(pos):
+            g.permutation(5)
+        return g.bit_generator.state["state"]
+    for c in cases:
+        ctx.count()
+        ctx.dist[f"rngset:{c['form']}"] += 1
+        ctx.mark(("rngset", c["form"], str(c["seed"]), c.get("consumed")))
+        if c["form"] == "np_generator":
+            v = np.random.default_rng(c["seed"])
+            for _ in range(c["consumed"]):
+                v.permutation(5)
+        elif c["form"] == "torch_generator":
+            v = torch.Generator().manual_seed(c["seed"])
+        else:
+            v = c["seed"]
+        o = RNGMixin(rng=12345)
+        before = o.rng.bit_generator.state["state"]
+        try:
+            o.rng = v
+            impl = {"rejected": False}
+        except Exception:  # noqa
+            impl = {"rejected": True}
+        m = drv.ask({"op": "rng_set", "form": c["form"], "seed": jsonable_value(c["seed"]) if c["form"] in ("int", "np_generator", "torch_generator") else 0,
+                     "consumed": c.get("consumed", 0)})
+        if "ok" not in m:
+            raise HarnessError(f"driver error {m}")
+        mo = m["ok"]
+        case = {"stream": "rngset", **{k: (str(x) if isinstance(x, int) and not isinstance(x, bool) and x >= 2 ** 63 else x) for k, x in c.items()}}
+        if mo["rejected"] != impl["rejected"]:
+            ctx.disagree("rng-setter-accept-reject", case, mo, impl)
+            continue
+        if impl["rejected"]:
+            if o.rng.bit_generator.state["state"] != before:
+                ctx.disagree("rng-setter-rejected-not-noop", case, "generator untouched", "generator changed by a rejected seed")
+            o._reset_rng()
+            if o.rng.bit_generator.state["state"] != twin_state(12345, 0):
+                ctx.disagree("rng-setter-rejected-not-noop", case, "reset replays the previous seed 12345", "a different generator after _reset_rng()")
+            continue
+        if c["form"] == "none":
+            o._reset_rng()          # unseeded: no claim beyond "does not raise"
+            continue
+        for stage in ("set", "reset"):
+            if stage == "reset":
+                o._reset_rng()
+            mm = mo[stage]
+            got = {"gen": o.rng.bit_generator.state["state"] == twin_state(mm["gen_seed"], mm["gen_pos"]),
+                   "torch_seed": int(o._rng_torch.initial_seed()) if hasattr(o, "_rng_torch") else mm["torch_seed"]}
+            if got != {"gen": True, "torch_seed": mm["torch_seed"]}:
+                ctx.disagree("rng-seed-forms", dict(case, stage=stage), {"gen": f"default_rng({mm['gen_seed']}) after {mm['gen_pos']} draws", "torch_seed": mm["torch_seed"]},
+                             {"gen": "as modelled" if got["gen"] else "another generator state", "torch_seed": got["torch_seed"]},
+                             note=f"RNGMixin.rng = <{c['form']} {c['seed']}>" + ("; _reset_rng()" if stage == "reset" else ""))
+
+
+CFG_VALUES = {"batch_size": [None, 1, 5, 2.5, 3.5, 0.5, 0.4, -0.0, 0, -1, True, "3", [3], 1000.0, 7, 4.4999, 1.5],
+              "val_ratio": [0, 0.0, -0.0, 1, 1.0, 0.5, 0.25, True, False, "x", 1.5, -0.25, None, 0.75, 1e-9],
+              "val_mode": ["grid", "random", "Grid", "", 3, None, "random", "grid"]}
+
+
+def cfgseq_case(ctx, drv, cfg, calls):
+    """ONE object, a sequence of configuration calls (accepted and rejected, exceptions caught): after every call the stored
+    batch_size / val_ratio / val_mode equal the model session's (`applyCall`); then one reconstruct(batch_size=None): its
+    schedule must be the exactly-once schedule of the STORED settings."""
+    from props import ptycho_tiny as pt
+    from qv.driver import b2f
+    case = {"stream": "cfgseq", "cfg": cfg, "calls": calls}
+    p = build(cfg, canonical=True)
+    N = int(p.dset.num_gpts)
+    impl = []
+    for kind, value in calls:
+        try:
+            setattr(p, kind, value)
+            rej = False
+        except Exception:  # noqa
+            rej = True
+        impl.append({"rejected": rej, "batch_size": int(p.batch_size), "val_ratio": float(p.val_ratio), "val_mode": p.val_mode})
+    m = drv.ask({"op": "cfg_seq", "batch_size": N, "calls": [{"kind": k, "value": jsonable_value(v)} for k, v in calls]})
+    if "ok" not in m:
+        raise HarnessError(f"driver error {m}")
+    # (the model starts from val_ratio 0 / grid / batch_size N: so does the canonical object unless cfg asked for a split)
+    ctx.count()
+    ctx.mark(("cfgseq", tuple(repr(c) for c in calls)))
+    start_ok = cfg["val_ratio"] == 0.0
+    for j, (a, mo) in enumerate(zip(impl, m["ok"])):
+        ctx.dist[f"cfgseq:{calls[j][0]} " + ("rejected" if a["rejected"] else "accepted")] += 1
+        mv = {"rejected": mo["rejected"], "batch_size": mo["batch_size"], "val_ratio": b2f(mo["val_ratio"]), "val_mode": mo["val_mode"]}
+        if start_ok and mv != a:
+            ctx.disagree("config-call-sequence", dict(case, call=j), mv, a, note=f"after call #{j}: {calls[j][0]} = {calls[j][1]!r}")
+            return
+    with pt.no_gc():
+        rec = pt.record_batches(p, None, num_iters=2, freeze=True, reset=True, loss_type=cfg["loss_type"])
+    its = sorted({e["iter"] for e in rec})
+    bb = impl[-1]["batch_size"]
+    sched = [[e["indices"] for e in rec if not e["val"] and e["iter"] == t] for t in its]
+    vals = [[e["indices"] for e in rec if e["val"] and e["iter"] == t] for t in its]
+    run_schedule_predicate(ctx, case, N, bb, sched, vals, f"reconstruct(batch_size=None) after the configuration calls (stored batch_size={bb})", key="epoch-not-exactly-once-after-config-calls")
+    want_val = py_nval(N, impl[-1]["val_ratio"])
+    got_val = len({i for batch in (vals[0] if vals else []) for i in batch})
+    if want_val != got_val:
+        ctx.disagree("config-call-sequence", dict(case, call="run"), {"n_val": want_val}, {"n_val": got_val}, note="size of the validation set used by the run vs round(n * stored val_ratio)")
+
+
+def gen_cfgseq(rng):
+    calls = []
+    for _ in range(rng.randint(4, 9)):
+        kind = rng.weighted([("batch_size", 4), ("val_ratio", 3), ("val_mode", 2)])
+        calls.append([kind, rng.choice(CFG_VALUES[kind])])
+    return calls
+
+
+PINNED_SIGNATURES = {
+    "SimpleBatcher.__init__": {"num": "<required>", "batch_size": "<required>", "shuffle": True, "rng": None, "val_ratio": 0.0, "val_mode": "grid", "train_indices": None, "val_indices": None},
+    "Ptychography.reconstruct": {"num_iters": 0, "reset": False, "batch_size": None, "autograd": True, "loss_type": "l2_amplitude"},
+    "subdivide_batches": {"num_items": "<required>", "num_batches": None, "max_batch": None},
+    "generate_batches": {"num_items": "<required>", "num_batches": None, "max_batch": None, "start_index": 0},
+    "RNGMixin.__init__": {"rng": None},
+}
+
+
+def run_signature_stream(ctx):
+    """the names and defaults of the parameters the property talks about (further optional parameters may be added freely)"""
+    import inspect
+    from quantem.core.utils.rng import RNGMixin
+    from quantem.core.utils.utils import generate_batches, subdivide_batches
+    from quantem.diffractive_imaging.ptycho_utils import SimpleBatcher
+    from quantem.diffractive_imaging.ptychography import Ptychography
+    fns = {"SimpleBatcher.__init__": SimpleBatcher.__init__, "Ptychography.reconstruct": Ptychography.reconstruct, "subdivide_batches": subdivide_batches,
+           "generate_batches": generate_batches, "RNGMixin.__init__": RNGMixin.__init__}
+    for name, want in PINNED_SIGNATURES.items():
+        ctx.count()
+        ctx.dist["signature:pinned"] += 1
+        ps = inspect.signature(fns[name]).parameters
+        got = {k: ("<missing>" if k not in ps else "<required>" if ps[k].default is inspect.Parameter.empty else ps[k].default) for k in want}
+        if got != want:
+            ctx.disagree("public-signature", {"stream": "signature", "function": name}, want, got, note=f"parameter names / defaults of {name}")
 
 
 RESET_ROUTES = {"arg": "reconstruct(reset=True)", "method": "reset_recon() then reconstruct()",
@@ -1271,8 +1471,10 @@ def guarded(ctx, fn, case, *args):
     except Exception as e:  # noqa
         cfg = next((a for a in args if isinstance(a, dict)), None)
         case = dict(case, cfg=cfg)
-        if fn is determinism_case or fn is history_case or fn is aborted_case:
+        if fn is determinism_case or fn is history_case or fn is aborted_case or fn is empty_train_case:
             case["b"] = args[-1]
+        if fn is cfgseq_case:
+            case["calls"] = args[-1]
         if fn is rejected_case:
             case.update({"b": args[-3], "rej": list(args[-2]), "follow_reset": args[-1]})
         tb = traceback.extract_tb(e.__traceback__)
@@ -1317,10 +1519,21 @@ def run(ctx):
             b = rng.choice([x for x in (2, 3, 4, 5, 7) if x < n_train] or [1])
             rej = rej_order[i % len(rej_order)]
             guarded(ctx, rejected_case, {"stream": "rejected", "rej": list(rej)}, ctx, drv, cfg, b, rej, i % 3 != 2)
+        run_rngset_stream(ctx, drv)
+        run_signature_stream(ctx)
+        rng = ctx.rng.fork(10)
+        for i in range(ctx.n(8, 40)):
+            cfg = gen_numeric_cfg(rng, i)
+            cfg["val_ratio"], cfg["val_mode"] = 0.0, "grid"
+            guarded(ctx, cfgseq_case, {"stream": "cfgseq"}, ctx, drv, cfg, gen_cfgseq(rng))
         rng = ctx.rng.fork(8)
         for i in range(ctx.n(16, 64)):
             cfg, b = gen_aborted_cfg(rng, i)
             guarded(ctx, aborted_case, {"stream": "aborted"}, ctx, drv, cfg, b)
+        for i in range(ctx.n(2, 6)):
+            cfg = gen_numeric_cfg(rng, i)
+            cfg["val_ratio"], cfg["val_mode"] = [0.97, 0.99][i % 2], "random"
+            guarded(ctx, empty_train_case, {"stream": "empty-train"}, ctx, drv, cfg, rng.choice([1, 3, 4]))
         ctx.exhaustive = None
         ctx.extra["exhaustive_note"] = ("both tiers enumerate every (n<=40, b<=45, ratio=k/16, mode) for SimpleBatcher (thorough: also every (n<=200, b<=n+5) with sampled ratios) and every "
                                         "(n<=32 quick / 60 thorough, num_batches<=n+2 | max_batch<=n_max+5) for subdivide_batches; seeds/shuffles are sampled (the theorems cover all permutations)")
@@ -1361,6 +1574,14 @@ def replay(ctx, rep):
             history_case(ctx, drv, case["cfg"], case["b"])
         elif stream == "aborted":
             aborted_case(ctx, drv, case["cfg"], case["b"])
+        elif stream == "empty-train":
+            empty_train_case(ctx, drv, case["cfg"], case["b"])
+        elif stream == "cfgseq":
+            cfgseq_case(ctx, drv, case["cfg"], [tuple(c) for c in case["calls"]])
+        elif stream == "rngset":
+            run_rngset_stream(ctx, drv)
+        elif stream == "signature":
+            run_signature_stream(ctx)
     finally:
         drv.close()
     return True
